@@ -311,6 +311,86 @@ theorem infix_echoedValue (src : Source) (slice : Bool) (raw : Bytes)
     | exact hq
     | exact hq.trans ⟨[91], [93], by simp⟩
 
+/-! ### `redactDataURI` (tls.go): the debug record "loading TLS certificate", the CA certificate error -/
+
+theorem redactDataURI_data (payload : Bytes) :
+    redactDataURI (dataPrefix ++ payload) = dataPrefix ++ placeholder := by
+  simp [redactDataURI, dataPrefix_isPrefixOf]
+
+theorem redactDataURI_path (p : Bytes) (h : dataPrefix.isPrefixOf p = false) : redactDataURI p = p := by
+  simp [redactDataURI, h]
+
+/-- what is printed of a file-valued flag is what may be shown of it -/
+theorem redactDataURI_raw (f : FilePub) (payload : Bytes) (h : f.ok) :
+    redactDataURI (f.raw payload) = f.shown := by
+  cases f with
+  | path p => exact redactDataURI_path p h
+  | data => exact redactDataURI_data payload
+
+/-- without any hypothesis: the payload has no influence on what is printed -/
+theorem redactDataURI_raw_indep (f : FilePub) (payload₁ payload₂ : Bytes) :
+    redactDataURI (f.raw payload₁) = redactDataURI (f.raw payload₂) := by
+  cases f with
+  | path p => rfl
+  | data => simp only [FilePub.raw, redactDataURI_data]
+
+theorem dataPrefix_append_ne_nil (payload : Bytes) : dataPrefix ++ payload ≠ [] := by
+  simp [dataPrefix]
+
+theorem redactDataURI_optRaw (f : Option FilePub) (payload : Bytes) (h : ∀ x, f = some x → x.ok) :
+    redactDataURI (optFileRaw f payload) = optFileShown f := by
+  cases f with
+  | none => rfl
+  | some x => exact redactDataURI_raw x payload (h x rfl)
+
+theorem redactDataURI_optRaw_indep (f : Option FilePub) (payload₁ payload₂ : Bytes) :
+    redactDataURI (optFileRaw f payload₁) = redactDataURI (optFileRaw f payload₂) := by
+  cases f with
+  | none => rfl
+  | some x => exact redactDataURI_raw_indep x payload₁ payload₂
+
+/-- whether a file-valued flag counts as "not given" does not depend on the payload … -/
+theorem optFileRaw_nil_indep (f : Option FilePub) (payload₁ payload₂ : Bytes) :
+    optFileRaw f payload₁ = [] ↔ optFileRaw f payload₂ = [] := by
+  cases f with
+  | none => exact Iff.rfl
+  | some x =>
+    cases x with
+    | path p => exact Iff.rfl
+    | data =>
+      exact ⟨fun h => absurd h (dataPrefix_append_ne_nil payload₁),
+        fun h => absurd h (dataPrefix_append_ne_nil payload₂)⟩
+
+/-- … and can be read off the public part -/
+theorem optFileRaw_nil_iff (f : Option FilePub) (payload : Bytes) :
+    optFileRaw f payload = [] ↔ optFileShown f = [] := by
+  cases f with
+  | none => exact Iff.rfl
+  | some x =>
+    cases x with
+    | path p => exact Iff.rfl
+    | data =>
+      exact ⟨fun h => absurd h (dataPrefix_append_ne_nil payload),
+        fun h => absurd h (dataPrefix_append_ne_nil placeholder)⟩
+
+theorem tlsLoadLine_indep (p : ConfigPub) (s₁ s₂ : Secrets) :
+    tlsLoadLine ⟨p, s₁⟩ = tlsLoadLine ⟨p, s₂⟩ := by
+  simp only [tlsLoadLine, tlsLoadAttrs,
+    optFileRaw_nil_indep p.tlsCert s₁.tlsCert s₂.tlsCert, optFileRaw_nil_indep p.tlsKey s₁.tlsKey s₂.tlsKey,
+    redactDataURI_optRaw_indep p.tlsCert s₁.tlsCert s₂.tlsCert,
+    redactDataURI_optRaw_indep p.tlsKey s₁.tlsKey s₂.tlsKey]
+
+theorem tlsLoadLine_eq_shown (p : ConfigPub) (s : Secrets)
+    (hc : ∀ f, p.tlsCert = some f → f.ok) (hk : ∀ f, p.tlsKey = some f → f.ok) :
+    tlsLoadLine ⟨p, s⟩ = tlsLoadShown p := by
+  simp only [tlsLoadLine, tlsLoadAttrs, tlsLoadShown,
+    optFileRaw_nil_iff p.tlsCert s.tlsCert, optFileRaw_nil_iff p.tlsKey s.tlsKey,
+    redactDataURI_optRaw p.tlsCert s.tlsCert hc, redactDataURI_optRaw p.tlsKey s.tlsKey hk]
+
+theorem caCertErrorText_indep (f : FilePub) (payload₁ payload₂ : Bytes) :
+    caCertErrorText (f.raw payload₁) = caCertErrorText (f.raw payload₂) := by
+  simp only [caCertErrorText, redactDataURI_raw_indep f payload₁ payload₂]
+
 /-! ### infix facts -/
 
 theorem infix_mid (a x b : Bytes) : x <:+: a ++ x ++ b := ⟨a, b, rfl⟩
